@@ -84,3 +84,36 @@ pub proof fn axiom_string_order()
     ensures vstd::laws_cmp::obeys_cmp_spec::<String>(),
 { admit(); }
 } // verus!
+// serde_json stand-ins (only what JsrPackageVersionInfo::export / exports look at)
+pub mod serde_json {
+  pub struct Number { _p: u64 }
+  pub struct Map<K, V> { _k: core::marker::PhantomData<K>, _v: core::marker::PhantomData<V> }
+  impl<V> Map<String, V> { pub fn get(&self, _k: &str) -> Option<&V> { unimplemented!() } }
+  pub use super::JsonValue as Value;
+}
+verus! {
+#[verifier::external_type_specification] #[verifier::external_body] pub struct ExJsonNumber(serde_json::Number);
+#[verifier::external_type_specification] #[verifier::external_body]
+#[verifier::reject_recursive_types(K)] #[verifier::accept_recursive_types(V)]
+pub struct ExJsonMap<K, V>(serde_json::Map<K, V>);
+
+pub enum JsonValue {
+    Null,
+    Bool(bool),
+    Number(serde_json::Number),
+    String(String),
+    Array(Vec<JsonValue>),
+    Object(serde_json::Map<String, JsonValue>),
+}
+/// the entry of a JSON object for a key text (None when absent)
+pub uninterp spec fn json_map_get<V>(m: serde_json::Map<String, V>, k: Seq<char>) -> Option<V>;
+pub assume_specification<'a, V>[ serde_json::Map::<String, V>::get ](m: &'a serde_json::Map<String, V>, k: &str) -> (r: Option<&'a V>)
+    ensures match r { Some(v) => json_map_get(*m, k@) == Some(*v), None => json_map_get(*m, k@) is None };
+
+/// HashMap<PackageName, _> looked up by `&str` (Borrow<str>): the entry whose name has that text
+pub proof fn axiom_package_name_borrow<V>(m: vstd::map::Map<PackageName, V>, s: &str)
+    ensures
+        vstd::std_specs::hash::contains_borrowed_key(m, s) <==> exists|n: PackageName| #[trigger] m.contains_key(n) && pn_text(n) == s@,
+        forall|v: V| vstd::std_specs::hash::maps_borrowed_key_to_value(m, s, v) <==> exists|n: PackageName| #[trigger] m.contains_key(n) && pn_text(n) == s@ && m[n] == v,
+{ admit(); }
+} // verus!
